@@ -648,6 +648,9 @@ fn matches_prop(f: &Failure, prop: &str) -> bool {
         || (prop == "C06" && f.clause.starts_with("C01"))  // modification semantics are part of the reference engine
         || (prop == "C01" && f.clause.starts_with("C06"))
         || (prop == "C05")
+        // C13 includes "once trading is enabled again every order matches the resting book by the usual rules": in a history that
+        // toggles trading, a deviation from the reference engine or an inconsistent view is a C13 failure as well (see matches_hist)
+        || (prop == "C13T" && (f.clause.starts_with("C01") || f.clause.starts_with("C02") || f.clause.starts_with("C03") || f.clause.starts_with("C13")))
 }
 
 fn shrink(mut h: History, prop: &str) -> History {
@@ -676,6 +679,8 @@ fn fix_ids_keep(ops: Vec<Op>) -> Vec<Op> {
 
 fn search(prop: &str, depth: usize, seed: u64, nrandom: usize, len: usize, ties: bool, offgrid: bool, budget_s: u64) -> Option<(History, Vec<Failure>)> {
     let t0 = std::time::Instant::now();
+    let toggling = prop == "C13";
+    let prop = if toggling { "C13T" } else { prop };
     // 1. exhaustive DFS over the small alphabet
     for tick in [1u32, 2] {
         let gen = Gen { rng: Xoroshiro128StarStar::seed_from_u64(seed), ties, offgrid_modify: offgrid };
@@ -733,7 +738,14 @@ fn search(prop: &str, depth: usize, seed: u64, nrandom: usize, len: usize, ties:
         }
         let tick = [1u32, 2, 5][k % 3];
         let levels = [3usize, 1, 10, 5][k % 4];
-        let h = gen.random_history(len, tick, levels);
+        let mut h = gen.random_history(len, tick, levels);
+        if toggling {
+            // every history of a C13 search switches trading off and on again a few times
+            let n = h.ops.len();
+            for (k, at) in [n / 5, 2 * n / 5, 3 * n / 5, 4 * n / 5].iter().enumerate() {
+                h.ops.insert(*at + k, if k % 2 == 0 { Op::Disable } else { Op::Enable });
+            }
+        }
         let fails = run_history(&h);
         if fails.iter().any(|f| matches_prop(f, prop)) {
             let h = shrink(h, prop);
@@ -779,6 +791,107 @@ fn truncate_check(seed: u64) -> (usize, Vec<String>) {
             }
             let _ = std::fs::remove_file(&p);
         }
+    }
+    (checked, bad)
+}
+
+
+/// bounded stand-in (C07, market part): random two-asset markets - with trading switched off and crossing orders placed while it is off -
+/// are written to a file and to a string, loaded back, and must show the same orders, trades and market data; a continuation must
+/// then produce the same results on both.
+fn market_snapshot_check(seed: u64, rounds: usize) -> (usize, Vec<String>) {
+    use bourse_book::Market;
+    let mut rng = Xoroshiro128StarStar::seed_from_u64(seed ^ 0x3a7);
+    let mut bad = vec![];
+    let mut checked = 0usize;
+    fn obs(m: &Market<2, 3>) -> String {
+        let mut s = String::new();
+        for a in 0..2 {
+            let b = m.get_order_book(a);
+            s.push_str(&format!("{:?}|{:?}|{:?}|{:?}|{}|{}|{};", b.get_orders().iter().map(|o| morder(o)).collect::<Vec<_>>(), b.get_trades().iter().map(mtrade).collect::<Vec<_>>(),
+                                b.bid_ask(), (b.bid_vol(), b.ask_vol(), b.bid_levels(), b.ask_levels()), b.get_time(), b.get_trade_vol(), b.mid_price()));
+        }
+        s
+    }
+    for k in 0..rounds {
+        let mut m: Market<2, 3> = Market::new(0, [1, 2], true);
+        let mut t = 0u64;
+        let n_ops = 8 + (k % 5) * 6;
+        let mut ops = |m: &mut Market<2, 3>, rng: &mut Xoroshiro128StarStar, n: usize, t: &mut u64| {
+            for _ in 0..n {
+                *t += 1;
+                m.set_time(*t);
+                let a = rng.gen_range(0..2usize);
+                let tick = [1u32, 2][a];
+                let r = rng.gen_range(0..100);
+                if r < 55 {
+                    let side = if rng.gen_bool(0.5) { Side::Bid } else { Side::Ask };
+                    let price = if rng.gen_bool(0.85) { Some((20 + rng.gen_range(0..6)) * tick) } else { None };
+                    let _ = m.create_and_place_order(a, side, rng.gen_range(1..9), 1, price);
+                } else if r < 60 {
+                    let _ = m.create_order(a, Side::Bid, 3, 2, Some(22 * tick));
+                } else if r < 75 {
+                    let n = m.get_orders(a).len();
+                    if n > 0 { m.cancel_order((a, rng.gen_range(0..n))); }
+                } else if r < 88 {
+                    let n = m.get_orders(a).len();
+                    if n > 0 { m.modify_order((a, rng.gen_range(0..n)), if rng.gen_bool(0.5) { Some((20 + rng.gen_range(0..6)) * tick) } else { None }, Some(rng.gen_range(1..9))); }
+                } else if r < 94 {
+                    m.disable_trading();
+                } else {
+                    m.enable_trading();
+                }
+            }
+        };
+        ops(&mut m, &mut rng, n_ops, &mut t);
+        if k % 2 == 0 {
+            // make sure crossed books occur: switch trading off and cross both assets
+            m.disable_trading();
+            t += 1; m.set_time(t);
+            let _ = m.create_and_place_order(0, Side::Bid, 5, 7, Some(30));
+            t += 1; m.set_time(t);
+            let _ = m.create_and_place_order(0, Side::Ask, 5, 7, Some(10));
+        }
+        let before = obs(&m);
+        // through a string
+        let js = serde_json::to_string(&m).unwrap();
+        let mut copies: Vec<(&str, Market<2, 3>)> = vec![];
+        match serde_json::from_str::<Market<2, 3>>(&js) {
+            Ok(x) => copies.push(("in-memory", x)),
+            Err(e) => bad.push(format!("round {}: in-memory snapshot does not load: {}", k, e)),
+        }
+        // through files, compact and pretty
+        for pretty in [false, true] {
+            let p = std::env::temp_dir().join(format!("bourse_market_{}_{}_{}.json", std::process::id(), k, pretty));
+            std::fs::write(&p, vec![b'#'; 1 << 16]).unwrap();
+            match m.save_json(&p, pretty) {
+                Ok(()) => match Market::<2, 3>::load_json(&p) {
+                    Ok(x) => copies.push((if pretty { "file (pretty)" } else { "file (compact)" }, x)),
+                    Err(e) => bad.push(format!("round {}: a snapshot written by Market::save_json(pretty={}) is rejected by Market::load_json: {}", k, pretty, e)),
+                },
+                Err(e) => bad.push(format!("round {}: save failed: {}", k, e)),
+            }
+            let _ = std::fs::remove_file(&p);
+        }
+        let mut rng2s: Vec<Xoroshiro128StarStar> = copies.iter().map(|_| rng.clone()).collect();
+        let mut t0 = t;
+        let mut rng_main = rng.clone();
+        ops(&mut m, &mut rng_main, 10, &mut t0);
+        let after = obs(&m);
+        for (i, (how, c)) in copies.iter_mut().enumerate() {
+            checked += 1;
+            if obs(c) != before {
+                bad.push(format!("round {}: the market loaded {} differs from the one that was saved", k, how));
+                continue;
+            }
+            let mut tc = t;
+            ops(c, &mut rng2s[i], 10, &mut tc);
+            if obs(c) != after {
+                bad.push(format!("round {}: the market loaded {} diverges from the original under the same continuation", k, how));
+            }
+        }
+        rng = rng_main;
+        if !bad.is_empty() { break; }
     }
     (checked, bad)
 }
@@ -867,6 +980,12 @@ fn main() {
                 }
                 None => println!("{{\"found\": false}}"),
             }
+        }
+        "market-snapshot" => {
+            let seed: u64 = arg(&args, "--seed").map_or(0, |s| s.parse().unwrap());
+            let (n, bad) = market_snapshot_check(seed, 60);
+            println!("{}", serde_json::json!({"snapshots_compared": n, "bad": bad}));
+            std::process::exit(if bad.is_empty() { 0 } else { 1 });
         }
         "truncate" => {
             let seed: u64 = arg(&args, "--seed").map_or(0, |s| s.parse().unwrap());
